@@ -113,7 +113,7 @@ func repoKinds() []repoKind {
 			r := asset.NewInMemoryRepository()
 			return r, func() string { return core.Dump(r) }, func() {}
 		}},
-		{name: "filesystem", inits: []string{"empty", "empty-file-A", "header-only-A", "base-path-with-pattern-characters", "reads-between-appends", "two-objects"},
+		{name: "filesystem", inits: []string{"empty", "empty-file-A", "header-only-A", "base-path-with-pattern-characters", "reads-between-appends", "two-objects", "process-zone-utc+9", "process-zone-utc-5"},
 			second: func(r asset.Repository) asset.Repository { return asset.NewFileSystemRepository(fsBase[r]) },
 			open: func(init string) (asset.Repository, func() string, func()) {
 				dir := mustTempDir("c10")
@@ -304,6 +304,17 @@ func checkReads(repo asset.Repository, m *repoModel, kind string, tolerateKnown 
 // replayRepo replays hist on a fresh repository inside one controlled execution;
 // after the last operation every read is issued.
 func replayRepo(k repoKind, init string, hist []repoOp) (state string, viol string, key string) {
+	// the persisted dates are calendar days written without a zone: what comes back must not depend on the time zone the
+	// process happens to run in (TZ, /etc/localtime)
+	if strings.HasPrefix(init, "process-zone-utc") {
+		saved := time.Local
+		off := 9
+		if strings.HasSuffix(init, "-5") {
+			off = -5
+		}
+		time.Local = time.FixedZone("process zone", off*3600)
+		defer func() { time.Local = saved }()
+	}
 	repo, stateFn, cleanup := k.open(init)
 	defer cleanup()
 	m := &repoModel{data: map[string][]*asset.Snapshot{}, appended: map[string]bool{}}
